@@ -221,3 +221,31 @@ Proof.
     vm_compute; discriminate
   end.
 Qed.
+
+(* 9. `else` after a command it may not follow: rejected at the closing brace (offset 20) *)
+Example ex_misplaced_else :
+  parse gen_tables (bs "stop; else { stop; } keep;") = Reject EMustFollow 19 1.
+Proof.
+  set (text := bs "stop; else { stop; } keep;").
+  assert (W : exists n, wf_cmd gen_tables [] None (GAct (bs "stop") []) n [] /\ d_name (node_def n) = bs "stop").
+  { eexists. split; [act|reflexivity]. }
+  destruct W as (n & W & Hn).
+  assert (P : wf_prefix gen_tables (toks_cmd (GAct (bs "stop") [])) [] (Some (bs "stop")) 0).
+  { replace (Some (bs "stop")) with (Some (d_name (node_def n))) by (rewrite Hn; reflexivity).
+    change (toks_cmd (GAct (bs "stop") [])) with ([] ++ toks_cmd (GAct (bs "stop") []))%list.
+    eapply wp_cmd; [apply wp_nil|exact W]. }
+  assert (B : exists ns L', wf_cmds gen_tables [] None [GAct (bs "stop") []] ns L').
+  { eexists. eexists. eapply wf_cons; [act|apply wf_nil]. }
+  destruct B as (ns & L' & B).
+  assert (G : exists d, get_command_instance gen_tables [] (bs "else") = inl d /\ d_type d = CControl /\
+                        d_accept_children d = true /\ follows_name d (Some (bs "stop")) = false /\ d_args d = []).
+  { eexists. split; [vm_compute; reflexivity|]. repeat split. }
+  destruct G as (d & G1 & G2 & G3 & G4 & G5).
+  let toks := eval vm_compute in (fst (lex text)) in
+  match toks with
+  | ?a :: ?b :: ?tn :: ?o :: ?c1 :: ?c2 :: ?t :: ?rest =>
+      exact (misplaced_follower_rejected gen_tables gen_twf text [a; b] tn [o] [c1; c2] t rest [] (Some (bs "stop")) 0 d
+               [GAct (bs "stop") []] ns L' P ltac:(vm_compute; reflexivity) eq_refl G1 G2 G3 G4
+               (or_intror (conj G5 eq_refl)) B eq_refl eq_refl)
+  end.
+Qed.
